@@ -21,6 +21,7 @@ type marg struct {
 type mop struct {
 	Op string `json:"op"`
 	A  marg   `json:"a"`
+	F  bool   `json:"f"`
 }
 type mobs struct {
 	Res string `json:"res"`
@@ -33,6 +34,7 @@ type wedge struct {
 	Obs     mobs   `json:"obs"`
 	Ld      bool   `json:"ld"`
 	Mut     bool   `json:"mut"`
+	F       bool   `json:"f"` // fault edge: the call is made while the wallet file cannot be written
 	Params  string `json:"params"`
 	Ids2    []int  `json:"ids2"`
 	Params2 string `json:"params2"`
@@ -95,7 +97,12 @@ func labelMapper(set int) func(string) string {
 	}
 }
 
-func (ss *session) apply(op mop) []event {
+func (ss *session) apply(op mop) (evs []event) {
+	if op.F {
+		op.F = false
+		ss.withSaveBlocked(func() { evs = ss.apply(op) })
+		return evs
+	}
 	a := op.A
 	switch op.Op {
 	case "open":
@@ -137,7 +144,17 @@ func sameInts(a, b []int) bool {
 
 func (ss *session) runEdge(i int, e *wedge) edgeResult {
 	r := edgeResult{Edge: i, From: len(ss.events), Match: true}
-	evs := ss.apply(mop{Op: e.Op, A: e.A})
+	evs := ss.apply(mop{Op: e.Op, A: e.A, F: e.F})
+	var after []event
+	if e.F {
+		// a call that failed at the save must have left everything as it was: read every account back, live and after
+		// the next successful save + reopen; a rejected new password must not open anything
+		also := ""
+		if e.Op == "chpw" {
+			also = e.A.Q
+		}
+		after = ss.verifyAll(also)
+	}
 	r.To = len(ss.events)
 	var diffs []string
 	for _, ev := range evs {
@@ -150,7 +167,23 @@ func (ss *session) runEdge(i int, e *wedge) edgeResult {
 			diffs = append(diffs, fmt.Sprintf("%s: created id %d, predicted %d", e.Op, ev.ID, e.Obs.ID))
 		}
 	}
+	for _, ev := range after {
+		if ev.Op == "get" {
+			want := "fail"
+			if ev.P != "" && ev.P == ss.intended[ev.ID] {
+				want = "ok"
+			}
+			if ev.Res != want {
+				diffs = append(diffs, fmt.Sprintf("after the failed save: get %s of account %d with %s: %s, expected %s", ev.Path, ev.ID, ev.P, ev.Res, want))
+			}
+		} else if ev.Res != "ok" {
+			diffs = append(diffs, fmt.Sprintf("after the failed save: %s returned %s (%s)", ev.Op, ev.Res, ev.Err))
+		}
+	}
 	last := evs[len(evs)-1]
+	if len(after) > 0 {
+		last = after[len(after)-1]
+	}
 	if !sameInts(last.Ids, e.Ids2) {
 		diffs = append(diffs, fmt.Sprintf("account list %v, predicted %v", last.Ids, e.Ids2))
 	}
@@ -173,7 +206,7 @@ func (ss *session) runEdge(i int, e *wedge) edgeResult {
 		}
 	}
 	lastMut := e.H[len(e.H)-1].Op
-	r.Class = fmt.Sprintf("%s/%s/%s/%s/ld=%v/n=%d/after=%s/paths=%d", e.Op, e.Obs.Res, try, e.Params, e.Ld, len(e.Ids2), lastMut, len(evs))
+	r.Class = fmt.Sprintf("%s/%s/%s/%s/ld=%v/n=%d/after=%s/paths=%d/fault=%v", e.Op, e.Obs.Res, try, e.Params, e.Ld, len(e.Ids2), lastMut, len(evs), e.F)
 	return r
 }
 
@@ -223,7 +256,7 @@ func walletEdges() {
 			vio.Fatal("edge %d: history does not start with open", i)
 		}
 		edges[i] = e
-		if e.Mut {
+		if e.Mut || e.F {
 			sessions = append(sessions, []int{i})
 			continue
 		}
